@@ -355,9 +355,16 @@ func c03Cases(c *Ctx, emit func(vhotpCase)) {
 		}
 		// refused windows
 		for _, skew := range []uint64{11, 12, 100, 10000, 1 << 32, 1<<63 - 1, 1 << 63, 1<<64 - 1} {
-			for _, ctr := range []uint64{0, 5, 100, 1 << 40} {
-				for _, dist := range []uint64{0, 1, 11} {
-					emit(vhotpCase{KeyHex: hexs(key), Secret: enc, Counter: ctr, Skew: skew, Digits: 6, Algo: 0, Submitted: []string{hexs([]byte(ref.HOTP(key, ctr+dist, 6, 0)))}, Notes: []string{fmt.Sprintf("refused window %d, genuine code at distance +%d", skew, dist)}})
+			// counters at both ends and in the upper half of the range; distances in both directions, taken modulo
+			// 2^64 (a window value misread as a signed or narrower number reaches exactly such counters)
+			for _, ctr := range []uint64{0, 5, 100, 1 << 40, 1 << 63, 1<<63 + 77, 1<<64 - 12} {
+				seen := map[uint64]bool{}
+				for _, dist := range []uint64{0, 1, ^uint64(0), 11, ^uint64(10), skew, -skew, 1 << 63, uint64(uint32(skew)), -uint64(uint32(skew))} {
+					if seen[dist] {
+						continue
+					}
+					seen[dist] = true
+					emit(vhotpCase{KeyHex: hexs(key), Secret: enc, Counter: ctr, Skew: skew, Digits: 6, Algo: 0, Submitted: []string{hexs([]byte(ref.HOTP(key, ctr+dist, 6, 0)))}, Notes: []string{fmt.Sprintf("refused window %d, genuine code at modular distance %d", skew, int64(dist))}})
 				}
 			}
 		}
@@ -471,10 +478,7 @@ func refusedSkewCases(c *Ctx, skews []uint64) []vtotpCase {
 			}
 			unix := int64(1<<40 + rng.Intn(1<<30))
 			step := ref.Step(unix, period)
-			for _, dist := range []uint64{0, 1, 11, skew} {
-				if step+dist < step {
-					continue
-				}
+			for _, dist := range []uint64{0, 1, ^uint64(0), 11, skew, -skew, 1 << 63, uint64(uint32(skew))} {
 				out = append(out, vtotpCase{KeyHex: hexs(key), Secret: enc, At: gen.InstantSpec{Unix: unix}, Period: period, Skew: skew, Digits: 6, Algo: 0,
 					Submitted: []string{hexs([]byte(ref.HOTP(key, step+dist, 6, 0)))}, Notes: []string{fmt.Sprintf("refused skew %d, genuine code at distance +%d", skew, dist)}})
 			}
